@@ -29,6 +29,7 @@ static short fd_obj[MAXFD];
 struct SfParty { int obj, op; long k; char cmd[1500]; };
 static SfParty parties[4];
 static int nparty;
+static void (*io_yield_fn)(const char *);
 
 static inline long raw6(long nr, long a, long b, long c, long d, long e, long f)
 {
@@ -58,6 +59,7 @@ void simf_reset()
   simf_shared();
   memset(S, 0, sizeof *S);
   nparty = 0;
+  io_yield_fn = 0;
   S->io_hash = FNV_INIT;
   for (int i = 0; i < MAXFD; ++i) fd_obj[i] = -1;
 }
@@ -82,6 +84,7 @@ int simf_add_fault(int obj, int op, long k, int kind, int err, long bytes, int s
 }
 
 static int helper_run(const char *cmd);
+void simf_set_io_yield(void (*fn)(const char *)) { io_yield_fn = fn; }
 
 int simf_add_party(int obj, int op, long k, const char *cmd)
 {
@@ -178,6 +181,7 @@ static long handle(long nr, long a0, long a1, long a2, long a3, long a4)
 	  {
 	    SfObj &o = S->obj[idx];
 	    long k = o.calls[SF_OPEN]++;
+	    if (io_yield_fn) io_yield_fn("io-open");
 	    maybe_party(idx, SF_OPEN, k);
 	    SfFault *f = find_fault(idx, SF_OPEN, k);
 	    if (f && f->kind == SFK_ERROR)
@@ -199,6 +203,7 @@ static long handle(long nr, long a0, long a1, long a2, long a3, long a4)
     case SYS_close:
       {
 	int idx = a0 >= 0 && a0 < MAXFD ? fd_obj[a0] : -1;
+	if (idx >= 0 && io_yield_fn) io_yield_fn("io-close");
 	if (idx >= 0) maybe_party(idx, SF_CLOSE, S->obj[idx].calls[SF_CLOSE]);
 	long r = pass(nr, a0, 0, 0, 0, 0);
 	if (idx < 0) { ++S->passthrough_total; return r; }
